@@ -38,6 +38,7 @@ import (
 	"net/url"
 	"strings"
 	"sync"
+	"sync/atomic"
 	"time"
 
 	"git.torproject.org/pluggable-transports/snowflake.git/v2/common/event"
@@ -340,12 +341,26 @@ func (sf *SnowflakeProxy) datachannelHandler(conn *webRTCConn, remoteAddr net.Ad
 	log.Printf("datachannelHandler ends")
 }
 
+// Who returns the token of a session: undecided, the data channel handler, or
+// runSession itself (after a failed answer or a data channel timeout).
+const (
+	tokenOwnerNone int32 = iota
+	tokenOwnerHandler
+	tokenOwnerSession
+)
+
 type dataChannelHandlerWithRelayURL struct {
-	RelayURL string
-	sf       *SnowflakeProxy
+	RelayURL   string
+	sf         *SnowflakeProxy
+	tokenOwner *int32
 }
 
 func (d dataChannelHandlerWithRelayURL) datachannelHandler(conn *webRTCConn, remoteAddr net.Addr) {
+	if !atomic.CompareAndSwapInt32(d.tokenOwner, tokenOwnerNone, tokenOwnerHandler) {
+		// runSession gave up on this session and has returned its token
+		conn.Close()
+		return
+	}
 	d.sf.datachannelHandler(conn, remoteAddr, d.RelayURL)
 }
 
@@ -522,7 +537,8 @@ func (sf *SnowflakeProxy) runSession(sid string) {
 		return
 	}
 	dataChan := make(chan struct{})
-	dataChannelAdaptor := dataChannelHandlerWithRelayURL{RelayURL: relayURL, sf: sf}
+	tokenOwner := tokenOwnerNone
+	dataChannelAdaptor := dataChannelHandlerWithRelayURL{RelayURL: relayURL, sf: sf, tokenOwner: &tokenOwner}
 	pc, err := sf.makePeerConnectionFromOffer(offer, config, dataChan, dataChannelAdaptor.datachannelHandler)
 	if err != nil {
 		log.Printf("error making WebRTC connection: %s", err)
@@ -537,7 +553,10 @@ func (sf *SnowflakeProxy) runSession(sid string) {
 			log.Printf("error calling pc.Close: %v", inerr)
 		}
 		vhook("rs.exit", "answerfail", sid)
-		tokens.ret()
+		// the data channel may already have opened: then its handler returns the token
+		if atomic.CompareAndSwapInt32(&tokenOwner, tokenOwnerNone, tokenOwnerSession) {
+			tokens.ret()
+		}
 		return
 	}
 	// Set a timeout on peerconnection. If the connection state has not
@@ -554,7 +573,10 @@ func (sf *SnowflakeProxy) runSession(sid string) {
 			log.Printf("error calling pc.Close: %v", err)
 		}
 		vhook("rs.exit", "timeout", sid)
-		tokens.ret()
+		// the data channel may have opened just now: then its handler returns the token
+		if atomic.CompareAndSwapInt32(&tokenOwner, tokenOwnerNone, tokenOwnerSession) {
+			tokens.ret()
+		}
 	}
 }
 
